@@ -151,6 +151,7 @@ fn opaque_array(imp: &str) -> bool {
         let body = &rest[k + 7..];
         let end = body.find('"').unwrap_or(body.len());
         let d = &body[..end];
+        if d.starts_with("Graph {") { rest = &body[end..]; continue; }      // a graph literal: modelled
         let inner = d.trim_start_matches('[').trim_end_matches(']');
         let ok = d.starts_with('[') && d.ends_with(']') && !inner.contains('[')
             && (inner.is_empty() || inner.split(", ").all(|x| !x.is_empty() && x.chars().all(|c| c.is_ascii_digit()))
